@@ -20,7 +20,8 @@ after isinstance(payload, PackedSwitch|SparseSwitch) holds on the path.
 from __future__ import annotations
 
 from ..model import ANALYSIS, DEX
-from ..offset_model import rule_offset_functions, rule_payload_model
+from ..model import AnalysisError
+from ..offset_model import rule_offset_functions, rule_payload_model, rule_payload_links_model
 from ..xref_engine import (Engine, XrefModel, Collector, Mut, rule_fact_offsets, rule_accumulators, rule_payload, rule_basic_block_offsets,
                            run_mutants, m_swap_args, m_set_arg, m_set_receiver, m_rename_call, m_delete_call, m_const, m_replace_src, b_rename_local)
 
@@ -34,7 +35,14 @@ def core(sink, eng):
     rule_fact_offsets(sink, xm)
     # disassembler side: executed abstractly on a model (values are judged, not loop shapes)
     rule_offset_functions(sink, eng.repo)
-    rule_payload_model(sink, eng.repo)
+    deferred = rule_payload_model(sink, eng.repo)
+    # end to end: two fill-array-data instructions sharing one payload are both linked to it after _create_basic_block
+    try:
+        rule_payload_links_model(sink, eng.repo)
+    except AnalysisError as e:
+        if deferred:
+            raise AnalysisError("%s; and the end-to-end model could not be evaluated: %s" % (deferred, e))
+        sink.note("end-to-end payload link model not evaluable on this tree (%s); the per-function clauses decide" % str(e)[:200])
     rule_basic_block_offsets(sink, eng)
 
 
